@@ -1,26 +1,35 @@
-from common import ENUMX_ASSUME, splice_qbft
+from common import ENUMX_ASSUME, splice_qbft, splice_k1memo
 
 CHECK = dict(
     pkgs=["core/consensus/qbft", "core/qbft"],
     files={"core/consensus/qbft": ["zz_verif_c04_test.go"], "core/qbft": ["zz_verif_c02_test.go", "zz_verif_hook.go"]},
     libs=["enumx"],
-    splice={"core/qbft/qbft.go": splice_qbft},
+    splice={"core/qbft/qbft.go": splice_qbft, "app/k1util/k1util.go": splice_k1memo},
+    extra_files={"app/k1util": ["zz_verif_k1memo.go"]},
     run={"core/consensus/qbft": "TestVerifC04", "core/qbft": "TestVerifC04u"},
     level="fault_enumeration",
     engine="timex",
     technique="exhaustive enumeration of fault scripts (crash points incl. halfway through a broadcast, silent members, late starts, late proposals, "
               "latency classes, every leader rotation, all three round timers), each executed on the real qbft.Run with the real "
-              "newDefinition/leader/transport/Msg/round timers in virtual time; exact oracles on decision round and instant",
+              "newDefinition/leader/transport/Msg/round timers in virtual time, every message delivered through the recipient's real receive handler "
+              "(Consensus.handle: signature and justification verification, count limits, conversion, receive buffer); exact oracles on decision "
+              "round and instant",
     claim="n=4 (quick) / n=4..7 (thorough): every subset of at most f faulty members, every fault kind for the first of them (crash during its "
           "k-th broadcast k<=4 reaching nobody / half / all but one of the others, silent from the start, start late by 1/4 or 3/4 of the first round, "
           "proposal late by the same), each also with every single slow (3*delta) running sender; all n leader rotations; increasing, eager "
           "double-linear and linear timers, attester duty and proposer duty with the proposal-timeout feature. Oracle: every running member decides, "
           "in a round at most n after the furthest round at the last fault (and within 1.5x the sum of those rounds' timeouts), no message of an "
-          "honest member is ever reported unjustified, running members agree. The last clause (no message of an honest member is rejected as "
+          "honest member is ever reported unjustified or refused by a receive handler, running members agree. Wide family (n=4 quick, n=4..7 thorough): no crash or "
+          "every crash kind of every member x every assignment, to at most D other members (n=4: D=2 quick / 3 thorough; n=5: 1 / 2; n=6,7: 1 thorough), of a "
+          "start offset in {0, 1/4, 3/4, 19/20} of the first round and a sender latency in {delta, 3*delta, 0.3 x shortest round timeout}: the unconditional "
+          "clauses (no honest message refused or unjustified, agreement, no instance error) are judged in every script, the termination clause in those "
+          "with at most f faulty (crashed, silent, late) members. The last clause (no message of an honest member is rejected as "
           "unjustified) is additionally checked over ALL delivery orders by the explicit-state search of C02 restricted to its scenarios without "
           "Byzantine members (second test binary, core/qbft)",
-    trusted="testing/synctest virtual time; the harness network converts wire messages exactly as the receiving handler does (valuesByHash + "
-            "newMsg); delivery instants never coincide (distinct microsecond offsets)",
+    trusted="testing/synctest virtual time; the recipient's Consensus object is assembled by the harness with the cluster's public keys, an allow-all "
+            "duty gater and a never-expiring deadliner (gater and deadliner belong to C05/C16); delivery instants never coincide (distinct microsecond "
+            "offsets); the two calls of app/k1util into the secp256k1 library (RecoverCompact, SignCompact - pure, deterministic) are memoised on their "
+            "complete argument bytes by an overlay so that repeated verification of byte-identical messages does not re-run the curve arithmetic",
     rule="scripts enumerated as nested products; non-trivial class = (n, timer, number of crashes, number of members that decided, their rounds)",
     assumptions=ENUMX_ASSUME + ["latency classes delta=40ms and 3*delta=120ms < 1/3 of the shortest round timeout (400ms)",
                                 "Byzantine members and latencies >= 1/3 timeout are outside the property"],
